@@ -85,6 +85,22 @@ func (this *Dataset) close() {
 	}
 }
 
+// Brings the replica lists of the partitions up to a newer descriptor of this dataset
+func (this *Dataset) syncPartitionNodes(partitions []*pb.Partition) error {
+	for _, meta := range partitions {
+		id, err := uuid.FromBytes(meta.GetId())
+		if err != nil {
+			return err
+		}
+		partition, err := this.getPartition(id)
+		if err != nil {
+			return err
+		}
+		partition.setNodeIds(meta.GetNodeIds())
+	}
+	return nil
+}
+
 func (this *Dataset) Meta() *pb.Dataset {
 	return this.meta
 }
